@@ -58,6 +58,11 @@ def runtime_functions(ctx):
     repo = ctx.repo
     out = []
     for fid, fi in sorted(repo.functions.items()):
+        if fi.node.name in repo.absorbed and fi.qual.split('.')[-1] == fi.node.name and '.' not in fi.qual.replace((fi.cls.qual + '.') if fi.cls is not None else '', '', 1):
+            # a helper whose every call was expanded in place: its statements are analysed in each
+            # caller, with the caller's knowledge of what the arguments are
+            ctx.unit('functions_absorbed_helper')
+            continue
         ph, why = phase_of(repo, fi)
         ctx.unit('functions_' + ph)
         if ph == 'run':
